@@ -89,6 +89,17 @@ def cases(tier, seed):
         for rd in ({'kind': 'spy', 'seed': seed + i}, {'kind': 'hostile', 'policy': 'sticky', 'seed': seed + i},
                    {'kind': 'hostile', 'policy': POL[i % len(POL)], 'seed': seed}):
             out.append({'f': 'randmio_dir_connected', 'g': g, 'w': 'bin', 'directed': True, 'kind': 'chain', 'len': L, 'rng': rd})
+    # dense by rows, fragile by columns: every out-degree >= n/2, two nodes with a single incoming connection
+    for n in ((8, 10, 12, 16) if thorough else (8, 10, 12)):
+        for sd in range(12 if thorough else 4):
+            g = ['named', 'dense_out_low_in', n, seed * 50 + sd]
+            for rd in ({'kind': 'spy', 'seed': seed + sd}, {'kind': 'hostile', 'policy': 'low', 'seed': seed + sd},
+                       {'kind': 'hostile', 'policy': 'sticky', 'seed': seed + sd}):
+                out.append({'f': 'randmio_dir_connected', 'g': g, 'w': 'bin', 'directed': True, 'kind': 'chain', 'len': 300 if thorough else 120, 'rng': rd})
+            out.append({'f': 'randmio_dir_connected', 'g': g, 'w': 'real', 'ws': sd, 'directed': True, 'kind': 'single', 'itrs': [2, 5, 10],
+                        'rs': seed * 100 + sd, 'pols': POL})
+            out.append({'f': 'latmio_dir_connected', 'g': g, 'w': 'real', 'ws': sd, 'directed': True, 'kind': 'single', 'itrs': [2, 5],
+                        'rs': seed * 100 + sd, 'pols': ['sticky', 'low']})
     # negative cases
     neg = [['disjoint', ['named', 'cycle', 4], ['named', 'cycle', 4]], ['iso', ['named', 'er_connected', 6, .4, seed], 1],
            ['disjoint', ['named', 'path', 3], ['named', 'complete', 4]], ['disjoint', ['named', 'complete', 3], ['named', 'complete', 3]],
@@ -173,6 +184,8 @@ def run(case, bct, REC):
                 kinds = ['default', 'ring', 'rand', 'randint', 'const']
                 dk = kinds[(di + itr) % len(kinds)]
                 D = RW.make_D(dk, n, case['rs'] + di, symmetric=not (directed and di % 2 == 1))
+                if dk == 'randint' and D is not None:   # caller-supplied integer distance tables
+                    D = D.astype([np.uint8, np.int64, np.uint16, np.float32][(di + itr) % 4])
                 RW.execute(REC, bct, f, R, {'itr': itr, 'D': D, 'Dk': dk, 'hostility': host}, rngmod.make_rng(d), capture=cap)
             elif f == 'randomize_graph_partial_und':
                 overlap = (di % 3 == 2)
